@@ -34,6 +34,7 @@ class FunctionReport:
         self.vacuity = None
         self.models: list[dict] = []
         self.loop_events = []
+        self.suspicious = []
 
     def to_json(self):
         return {
@@ -41,7 +42,7 @@ class FunctionReport:
             "status": self.status, "reason": self.reason, "seconds": round(self.seconds, 3),
             "obligations": self.obligations, "dropped": sorted(set(self.dropped))[:20],
             "assumed": sorted(set(self.assumed))[:40], "vacuity": self.vacuity,
-            "models": self.models[:5],
+            "models": self.models[:5], "suspicious": sorted(set(self.suspicious))[:10],
         }
 
 
@@ -390,6 +391,15 @@ def verify_function(model: Model, contract: Contract, timeout_ms=None, max_paths
         return rep
     all_obs = []
     rep.vectors = [list(r.path.taken) for r in results]
+    # contract-consistency guard: an assumed callee postcondition must not refute a path that was
+    # not refuted before it (contradictory contract => everything after it would be vacuous)
+    if phase != "enumerate":
+        for r in results:
+            for name, n0, n1 in r.path.call_marks:
+                if n1 is None or n1 == n0:
+                    continue
+                if pc_refuted(r.path.pc[:n1])[0] == "proved" and pc_refuted(r.path.pc[:n0])[0] != "proved":
+                    rep.suspicious.append(f"assumed postcondition of {name} refutes the path condition")
     for r in results:
         rep.dropped.extend(r.path.dropped)
         rep.assumed.extend(r.path.assumed)
